@@ -234,7 +234,8 @@ func (e *Engine) sendPoisonPill(ctx context.Context, graceful bool, pid *PID) co
 		graceful: graceful,
 	}
 	// deadletter - if we didn't find a process, we will broadcast a DeadletterEvent
-	if e.Registry.get(pid) == nil {
+	proc := e.Registry.get(pid)
+	if proc == nil {
 		e.BroadcastEvent(DeadLetterEvent{
 			Target:  pid,
 			Message: pill,
@@ -243,7 +244,15 @@ func (e *Engine) sendPoisonPill(ctx context.Context, graceful bool, pid *PID) co
 		cancel()
 		return ctx
 	}
-	e.SendLocal(pid, pill, nil)
+	// The pill only triggers the shutdown. The process may be stopped by an
+	// earlier pill, by a crash or by its parent before it ever looks at this one,
+	// so the caller is signalled by the process itself once it has finished.
+	if w, ok := proc.(interface{ notifyStopped(context.CancelFunc) }); ok {
+		w.notifyStopped(cancel)
+	}
+	// Hand the pill to the very process we looked up: by now the ID may already
+	// belong to a newer actor, which this call must not stop.
+	proc.Send(pid, pill, nil)
 	return ctx
 }
 
